@@ -422,6 +422,37 @@ func Rename(oldpath, newpath string) error {
 	return nil
 }
 
+// Link creates newname as a hard link to the file oldname (same inode: data and xattrs are shared).
+func Link(oldname, newname string) error {
+	M.step("link", newname)
+	_, _, on, err := M.walk("link", oldname)
+	if err != nil {
+		return &os.LinkError{Op: "link", Old: oldname, New: newname, Err: err.(*fs.PathError).Err}
+	}
+	if on == nil {
+		return &os.LinkError{Op: "link", Old: oldname, New: newname, Err: syscall.ENOENT}
+	}
+	if on.Dir {
+		return &os.LinkError{Op: "link", Old: oldname, New: newname, Err: syscall.EPERM}
+	}
+	np, nl, nn, err := M.walk("link", newname)
+	if err != nil {
+		return &os.LinkError{Op: "link", Old: oldname, New: newname, Err: err.(*fs.PathError).Err}
+	}
+	if np == nil {
+		return &os.LinkError{Op: "link", Old: oldname, New: newname, Err: syscall.ENOENT}
+	}
+	if nn != nil {
+		return &os.LinkError{Op: "link", Old: oldname, New: newname, Err: syscall.EEXIST}
+	}
+	np.Kids[nl] = on
+	on.Nlink++
+	M.Clock++
+	np.Mtime = M.Clock
+	M.note("link", newname, on, "create")
+	return nil
+}
+
 func sortedNames(n *Inode) []string {
 	names := make([]string, 0, len(n.Kids))
 	for k := range n.Kids {
